@@ -221,6 +221,10 @@ type clientSpec struct {
 	FP        string `json:"fp"`        // "" = absent
 	Offer     string `json:"offer"`
 	Pad       string `json:"pad,omitempty"` // AMP cache-breaking padding
+	// FixedPad: the path is built with exactly Pad (also when empty) as its
+	// cache-breaking token; several clients of a history may then share it
+	// (the token is filler that the broker must not take for an identity)
+	FixedPad bool `json:"fixed_pad,omitempty"`
 }
 
 type clientResult struct {
@@ -264,7 +268,7 @@ func (b *vBroker) client(c *clientSpec) clientResult {
 		return r
 	case "amp":
 		path := "/amp/client/" + amp.EncodePath(c.pollBody())
-		if c.Pad != "" {
+		if c.Pad != "" || c.FixedPad {
 			path = "/amp/client/0" + c.Pad + "/" + base64.RawURLEncoding.EncodeToString(c.pollBody())
 		}
 		st, out := b.do("GET", path, nil, nil, "")
